@@ -1,7 +1,13 @@
-(* Whole-factory invariant for C18 (counters): in every reachable world of every configuration a node's
-   counters of generated, discarded and received items equal the number of such events in the trace.
-   Lifted through all process blocks with the tactic of FactoryInv.v. *)
-From Coq Require Import List ZArith Lia Bool Arith.
+(* Whole-factory invariant for C18 (cycle times, time stamps) and C19 (observed time):
+   in every reachable world of every configuration
+     - a sink's total cycle time is the sum, over the receptions in the trace, of reception time minus the
+       creation stamp the sink read from the item;
+     - no creation stamp lies in the future, and every reception is at or after the creation it reads;
+     - the time stamps of the trace are non-decreasing and never ahead of the clock.
+   The predicate carries "the clock shows T": no operation of a block moves the clock (only the kernel's pop does),
+   which is what lets the stamp [wnow w0] taken at the beginning of a block be recognised as T at its end.
+   Lifted through all process blocks with the tactic of FactoryInv.v / FactoryCount.v. *)
+From Coq Require Import List ZArith Lia Bool Arith Sorting.Sorted.
 From RecordUpdate Require Import RecordUpdate.
 From FV Require Import ListLemmas Kernel SrcFragments Lens World Factory.
 From FV Require FactoryInv.
@@ -9,81 +15,185 @@ From FV Require StoreB.
 Import ListNotations.
 Open Scope Z_scope.
 
-Definition is_gen (n : nat) (x : tev) : bool := match x with LGen _ m _ => Nat.eqb m n | _ => false end.
-Definition is_disc (n : nat) (x : tev) : bool := match x with LDiscard _ m _ => Nat.eqb m n | _ => false end.
-Definition is_recv (n : nat) (x : tev) : bool := match x with LRecv _ m _ _ => Nat.eqb m n | _ => false end.
-Definition cnt (p : tev -> bool) (l : list tev) : nat := length (filter p l).
-Definition counted (x : tev) : bool := match x with LGen _ _ _ | LDiscard _ _ _ | LRecv _ _ _ _ => true | _ => false end.
+Definition ev_time (x : tev) : option Z :=
+  match x with
+  | LGen t _ _ | LPut t _ _ | LGet t _ _ _ | LDiscard t _ _ | LRecv t _ _ _ | LPack t _ _ _ => Some t
+  | _ => None
+  end.
+Definition times (l : list tev) : list Z := flat_map (fun x => match ev_time x with Some t => [t] | None => [] end) l.
+Definition recv_ok (x : tev) : Prop := match x with LRecv t _ _ c => c <= t | _ => True end.
+Definition contrib (n : nat) (x : tev) : Z := match x with LRecv t m _ c => if Nat.eqb m n then t - c else 0 | _ => 0 end.
+Definition cyc (n : nat) (l : list tev) : Z := fold_right (fun x a => contrib n x + a) 0 l.
+Definition is_recv (x : tev) : bool := match x with LRecv _ _ _ _ => true | _ => false end.
+Arguments times : simpl never.
+Arguments cyc : simpl never.
 
-Definition COK (log : list tev) (n : nat) (nd : node) : Prop :=
-  ngen nd = cnt (is_gen n) log /\ ndisc nd = cnt (is_disc n) log /\ nrecv nd = cnt (is_recv n) log.
-Definition CN (w : world) : Prop := forall n, (n < length (wnodes w))%nat -> COK (wlog w) n (get_node w n).
-
-Lemma cnt_snoc p l x : cnt p (l ++ [x]) = (cnt p l + if p x then 1 else 0)%nat.
-Proof. unfold cnt. rewrite filter_app, app_length. simpl. destruct (p x); reflexivity. Qed.
-
+Lemma times_snoc l x : times (l ++ [x]) = times l ++ match ev_time x with Some t => [t] | None => [] end.
+Proof. unfold times. rewrite flat_map_app. simpl. rewrite app_nil_r. reflexivity. Qed.
+Lemma cyc_snoc n l x : cyc n (l ++ [x]) = cyc n l + contrib n x.
+Proof. unfold cyc. induction l as [|y l IH]; simpl; [lia|]. rewrite IH. lia. Qed.
+Lemma ss_snoc l t : StronglySorted Z.le l -> Forall (fun x => x <= t) l -> StronglySorted Z.le (l ++ [t]).
+Proof.
+  induction 1 as [|y l S IH F]; simpl; intros B.
+  - constructor; constructor.
+  - inversion B; subst. constructor; auto. apply Forall_app. split; auto.
+Qed.
 Lemma upd_length {A} n (f : A -> A) l : length (upd n f l) = length l.
 Proof. revert l. induction n as [|n IH]; intros [|x l]; simpl; auto. Qed.
 Lemma nth_upd_same {A} n (f : A -> A) : forall l d, (n < length l)%nat -> nth n (upd n f l) d = f (nth n l d).
 Proof. induction n as [|n IH]; intros [|x l] d H; simpl in *; try lia; auto. apply IH. lia. Qed.
 Lemma nth_upd_other {A} n m (f : A -> A) : forall l d, n <> m -> nth m (upd n f l) d = nth m l d.
 Proof. revert m. induction n as [|n IH]; intros [|m] [|x l] d H; simpl in *; try lia; auto; apply IH; lia. Qed.
-
-(* a node update that leaves the three counters alone *)
-Lemma upd_node_keep w n f :
-  (forall x, ngen (f x) = ngen x /\ ndisc (f x) = ndisc x /\ nrecv (f x) = nrecv x) -> CN w -> CN (upd_node w n f).
+Lemma Forall_upd {A} (P : A -> Prop) n f : (forall x, P x -> P (f x)) -> forall l, Forall P l -> Forall P (upd n f l).
 Proof.
-  intros K H m L. unfold upd_node in *. cbn [wnodes wlog set] in *. simpl in *. rewrite upd_length in L.
-  specialize (H m L). unfold get_node in *. cbn [wnodes set]. simpl. destruct (Nat.eq_dec n m) as [->|NE].
-  - rewrite nth_upd_same by exact L. destruct (K (nth m (wnodes w) node0)) as (A & B & C). unfold COK in *. rewrite A, B, C. exact H.
-  - rewrite nth_upd_other by exact NE. exact H.
-Qed.
-(* a trace entry that is not a generation, a discard or a reception *)
-Lemma logw_c w x : counted x = false -> CN w -> CN (logw w x).
-Proof.
-  intros Q H m L. specialize (H m L). unfold logw, COK in *. cbn [wlog wnodes set] in *. simpl in *. unfold get_node in *. cbn [wnodes set]. simpl.
-  rewrite !cnt_snoc. destruct x; try discriminate; simpl; rewrite !Nat.add_0_r; exact H.
+  intros K. induction n as [|n IH]; intros [|x l] H; simpl; auto; inversion H; subst; constructor; auto.
 Qed.
 
-(* the three places where a counter moves: the counter and the trace move together *)
-Lemma pair_core w n (f : node -> node) x (dg dd dr : nat) :
-  (forall y, ngen (f y) = (ngen y + dg)%nat /\ ndisc (f y) = (ndisc y + dd)%nat /\ nrecv (f y) = (nrecv y + dr)%nat) ->
-  (forall m, (if is_gen m x then 1 else 0)%nat = (if Nat.eqb n m then dg else 0)%nat /\
-             (if is_disc m x then 1 else 0)%nat = (if Nat.eqb n m then dd else 0)%nat /\
-             (if is_recv m x then 1 else 0)%nat = (if Nat.eqb n m then dr else 0)%nat) ->
-  CN w -> CN (logw (upd_node w n f) x).
+(* clock-independent part, monotone in T *)
+Definition cre_ok (T : Z) (it : iteminfo) : Prop := match i_creation it with Some c => c <= T | None => True end.
+Definition YT (T : Z) (w : world) : Prop :=
+  Forall (cre_ok T) (witems w) /\
+  Forall (fun t => t <= T) (times (wlog w)) /\ StronglySorted Z.le (times (wlog w)) /\
+  Forall recv_ok (wlog w) /\
+  forall n, (n < length (wnodes w))%nat -> ncycle (get_node w n) = cyc n (wlog w).
+Definition XT (T : Z) (w : world) : Prop := wnow w = T /\ YT T w.
+
+Lemma YT_mono T T' w : T <= T' -> YT T w -> YT T' w.
 Proof.
-  intros K X H m L. unfold logw, upd_node in *. cbn [wnodes wlog set] in *. simpl in *. rewrite upd_length in L.
-  specialize (H m L). unfold get_node, COK in *. cbn [wnodes set]. simpl. rewrite !cnt_snoc.
-  destruct (X m) as (X1 & X2 & X3). rewrite X1, X2, X3. destruct (Nat.eq_dec n m) as [->|NE].
-  - rewrite nth_upd_same by exact L. rewrite Nat.eqb_refl. destruct (K (nth m (wnodes w) node0)) as (A & B & C).
-    rewrite A, B, C. destruct H as (H1 & H2 & H3). rewrite H1, H2, H3. auto.
-  - rewrite nth_upd_other by exact NE. destruct (Nat.eqb_spec n m); [congruence|]. rewrite !Nat.add_0_r. exact H.
+  intros L (A & B & C & D & E). repeat split; auto.
+  - eapply Forall_impl; [|exact A]. intros it. unfold cre_ok. destruct (i_creation it); auto. lia.
+  - eapply Forall_impl; [|exact B]. simpl. intros; lia.
 Qed.
-Lemma gen_pair w n t i : CN w -> CN (logw (upd_node w n (fun x => x <| ngen ::= S |>)) (LGen t n i)).
+
+(* the kernel operations other than pop leave the clock alone *)
+Lemma now_succeed k e k' : succeed k e = Some k' -> now k' = now k.
+Proof. unfold succeed. destruct (e_trig _); [discriminate|]. intros [= <-]. reflexivity. Qed.
+Lemma now_check k c : now (check k c) = now k.
+Proof. unfold check. destruct (e_trig _); reflexivity. Qed.
+Lemma now_any_of_fold c l : forall k0,
+  now (fold_left (fun k1 e1 => if e_proc (get_ev k1 e1) then check k1 c else add_cb k1 e1 (CbCheck c)) l k0) = now k0.
 Proof.
-  apply (pair_core w n _ _ 1 0 0).
-  - intros y. cbn. repeat split; lia.
-  - intros m. simpl. rewrite (Nat.eqb_sym n m). destruct (Nat.eqb m n); auto.
+  induction l as [|x l IH]; simpl; intros k0; auto. rewrite IH. destruct (e_proc _); [apply now_check|reflexivity].
 Qed.
-Lemma disc_pair w n t i : CN w -> CN (logw (upd_node w n (fun x => x <| ndisc ::= S |>)) (LDiscard t n i)).
+Lemma now_any_of k es : now (fst (any_of k es)) = now k.
 Proof.
-  apply (pair_core w n _ _ 0 1 0).
-  - intros y. cbn. repeat split; lia.
-  - intros m. simpl. rewrite (Nat.eqb_sym n m). destruct (Nat.eqb m n); auto.
+  unfold any_of. simpl. destruct es as [|e es]; [reflexivity|]. cbn [fst]. rewrite now_any_of_fold.
+  reflexivity.
 Qed.
-Lemma recv_pair w n t i c g : CN w -> CN (logw (upd_node w n (fun x => x <| nrecv ::= S |> <| ncycle ::= g |>)) (LRecv t n i c)).
+Lemma now_res_trig_put k r k' r' : res_trig_put k r = Some (k', r') -> now k' = now k.
 Proof.
-  apply (pair_core w n _ _ 0 0 1).
-  - intros y. cbn. repeat split; lia.
-  - intros m. simpl. rewrite (Nat.eqb_sym n m). destruct (Nat.eqb m n); auto.
+  unfold res_trig_put. destruct (r_putq r); [intros [= <- _]; auto|]. destruct (_ <? _)%nat; [|intros [= <- _]; auto].
+  destruct (succeed k n) eqn:E; [|discriminate]. intros [= <- _]. eapply now_succeed; eauto.
+Qed.
+Lemma now_res_trig_get k r k' r' : res_trig_get k r = Some (k', r') -> now k' = now k.
+Proof.
+  unfold res_trig_get. destruct (r_getq r) as [|[g q] rest]; [intros [= <- _]; auto|].
+  destruct (succeed k g) eqn:E; [|discriminate]. intros [= <- _]. eapply now_succeed; eauto.
+Qed.
+Lemma now_res_request k rid r k' r' q : res_request k rid r = Some (k', r', q) -> now k' = now k.
+Proof.
+  unfold res_request. simpl. destruct (res_trig_put _ _) as [[k3 r3]|] eqn:E; [|discriminate].
+  intros [= <- _ _]. apply now_res_trig_put in E. exact E.
+Qed.
+Lemma now_res_release k rid r q k' r' g : res_release k rid r q = Some (k', r', g) -> now k' = now k.
+Proof.
+  unfold res_release. simpl. destruct (res_trig_get _ _) as [[k3 r3]|] eqn:E; [|discriminate].
+  intros [= <- _ _]. apply now_res_trig_get in E. exact E.
+Qed.
+
+Section AtTime.
+Variable T : Z.
+Notation CN := (XT T).
+
+Lemma pnow w : CN w -> wnow w = T.
+Proof. intros (A & _). exact A. Qed.
+
+(* a world that differs only in kernel events / queue, edges, processes *)
+Lemma same_c w w' : wnow w' = wnow w -> witems w' = witems w -> wlog w' = wlog w -> wnodes w' = wnodes w -> CN w -> CN w'.
+Proof. unfold XT, YT, get_node. intros -> -> -> ->. auto. Qed.
+Lemma setk_c w k : now k = now (wk w) -> CN w -> CN (w <| wk := k |>).
+Proof. intros E. apply same_c; auto. Qed.
+
+Lemma upd_node_keep w n f : (forall x, ncycle (f x) = ncycle x) -> CN w -> CN (upd_node w n f).
+Proof.
+  intros K (N & A & B & C & D & E). split; [exact N|]. repeat split; auto.
+  intros m L. unfold upd_node in *. cbn [wnodes wlog set] in *. simpl in *. rewrite upd_length in L.
+  specialize (E m L). unfold get_node in *. cbn [wnodes set]. simpl. destruct (Nat.eq_dec n m) as [->|NE].
+  - rewrite nth_upd_same by exact L. rewrite K. exact E.
+  - rewrite nth_upd_other by exact NE. exact E.
+Qed.
+Lemma upd_item_c w i f : (forall y, cre_ok T y -> cre_ok T (f y)) -> CN w -> CN (upd_item w i f).
+Proof.
+  intros K (N & A & B & C & D & E). split; [exact N|]. repeat split; auto.
+  unfold upd_item. cbn [witems set]. simpl. apply Forall_upd; auto.
+Qed.
+Lemma add_item_c w it : cre_ok T it -> CN w -> CN (w <| witems ::= fun l => l ++ [it] |>).
+Proof.
+  intros K (N & A & B & C & D & E). split; [exact N|]. repeat split; auto.
+  cbn [witems set]. simpl. apply Forall_app. split; auto.
+Qed.
+Lemma wlog_logw w x : wlog (logw w x) = wlog w ++ [x].
+Proof. reflexivity. Qed.
+Lemma witems_logw w x : witems (logw w x) = witems w.
+Proof. reflexivity. Qed.
+Lemma wnodes_logw w x : wnodes (logw w x) = wnodes w.
+Proof. reflexivity. Qed.
+Lemma wnow_logw w x : wnow (logw w x) = wnow w.
+Proof. reflexivity. Qed.
+Lemma wlog_upd_node w n f : wlog (upd_node w n f) = wlog w.
+Proof. reflexivity. Qed.
+Lemma witems_upd_node w n f : witems (upd_node w n f) = witems w.
+Proof. reflexivity. Qed.
+Lemma wnodes_upd_node w n f : wnodes (upd_node w n f) = upd n f (wnodes w).
+Proof. reflexivity. Qed.
+Lemma wnow_upd_node w n f : wnow (upd_node w n f) = wnow w.
+Proof. reflexivity. Qed.
+(* a trace entry without a time stamp *)
+Lemma logw_c w x : ev_time x = None -> CN w -> CN (logw w x).
+Proof.
+  intros Q (N & A & B & C & D & E). split; [exact N|]. unfold YT, get_node. rewrite wlog_logw, witems_logw, wnodes_logw.
+  assert (contrib_0 : forall n, contrib n x = 0) by (intros n; destruct x; simpl in *; try reflexivity; discriminate).
+  repeat split; auto.
+  - rewrite times_snoc, Q, app_nil_r. exact B.
+  - rewrite times_snoc, Q, app_nil_r. exact C.
+  - apply Forall_app. split; auto. constructor; auto. destruct x; simpl in *; auto; discriminate.
+  - intros n L. rewrite cyc_snoc, contrib_0. rewrite Z.add_0_r. apply E, L.
+Qed.
+(* a stamped entry other than a reception: the stamp is the clock *)
+Lemma logw_t w x t : ev_time x = Some t -> is_recv x = false -> t = T -> CN w -> CN (logw w x).
+Proof.
+  intros Q R -> (N & A & B & C & D & E). split; [exact N|]. unfold YT, get_node. rewrite wlog_logw, witems_logw, wnodes_logw.
+  assert (contrib_0 : forall n, contrib n x = 0) by (intros n; destruct x; simpl in *; try reflexivity; discriminate).
+  repeat split; auto.
+  - rewrite times_snoc, Q. apply Forall_app. split; auto. constructor; auto. lia.
+  - rewrite times_snoc, Q. apply ss_snoc; auto.
+  - apply Forall_app. split; auto. constructor; auto. destruct x; simpl in *; auto; discriminate.
+  - intros n L. rewrite cyc_snoc, contrib_0. rewrite Z.add_0_r. apply E, L.
+Qed.
+(* the reception: counter, cycle total and trace move together *)
+Lemma recv_pair w n t t' i c :
+  t = T -> t' = T -> c <= T -> CN w ->
+  CN (logw (upd_node w n (fun x => x <| nrecv ::= S |> <| ncycle ::= fun v => v + (t' - c) |>)) (LRecv t n i c)).
+Proof.
+  intros -> -> Hc (N & A & B & C & D & E). split; [exact N|].
+  unfold YT, get_node. rewrite wlog_logw, witems_logw, wnodes_logw, wlog_upd_node, witems_upd_node, wnodes_upd_node.
+  repeat split; auto.
+  - rewrite times_snoc. simpl. apply Forall_app. split; auto. constructor; auto. lia.
+  - rewrite times_snoc. simpl. apply ss_snoc; auto.
+  - apply Forall_app. split; [exact D|]. constructor; [simpl; lia|constructor].
+  - intros m L. rewrite upd_length in L. specialize (E m L). unfold get_node in *. rewrite cyc_snoc. simpl.
+    destruct (Nat.eq_dec n m) as [->|NE].
+    + rewrite nth_upd_same by exact L. rewrite Nat.eqb_refl. cbn. rewrite E. lia.
+    + rewrite nth_upd_other by exact NE. destruct (Nat.eqb_spec n m); [congruence|]. lia.
+Qed.
+Lemma cre_le w i c : CN w -> i_creation (get_item w i) = Some c -> c <= T.
+Proof.
+  intros (_ & A & _) H. unfold get_item in H. destruct (Nat.lt_ge_cases i (length (witems w))) as [L|L].
+  - rewrite Forall_forall in A. specialize (A _ (nth_In _ item0 L)). unfold cre_ok in A. rewrite H in A. exact A.
+  - rewrite nth_overflow in H by exact L. discriminate.
 Qed.
 
 Create HintDb cdb.
-
-
-
-
 
 Lemma crashw_c w c : CN w -> CN (crashw w c).
 Proof. unfold crashw. destruct (wcrash w); auto. Qed.
@@ -91,30 +201,34 @@ Lemma upd_edge_c w e f : CN w -> CN (upd_edge w e f).
 Proof. auto. Qed.
 Lemma upd_proc_c w e f : CN w -> CN (upd_proc w e f).
 Proof. auto. Qed.
-Lemma upd_item_c w e f : CN w -> CN (upd_item w e f).
-Proof. auto. Qed.
 Lemma setpc_c w p pc : CN w -> CN (setpc w p pc).
 Proof. auto. Qed.
-#[local] Hint Resolve crashw_c upd_edge_c upd_proc_c upd_item_c setpc_c : cdb.
+#[local] Hint Resolve crashw_c upd_edge_c upd_proc_c setpc_c : cdb.
 Ltac cn_side :=
   let x := fresh in intros x;
-  first [repeat split; reflexivity
+  first [reflexivity
         | repeat (match goal with
                   | |- context [if ?b then _ else _] => destruct b
                   | |- context [match ?b with _ => _ end] => destruct b
-                  end); repeat split; reflexivity].
-#[local] Hint Extern 1 (CN (logw (upd_node _ _ _) (LGen _ _ _))) => apply gen_pair : cdb.
-#[local] Hint Extern 1 (CN (logw (upd_node _ _ _) (LDiscard _ _ _))) => apply disc_pair : cdb.
-#[local] Hint Extern 1 (CN (logw (upd_node _ _ _) (LRecv _ _ _ _))) => apply recv_pair : cdb.
-#[local] Hint Extern 2 (CN (logw _ _)) => (apply logw_c; [reflexivity|]) : cdb.
+                  end); reflexivity].
+Ltac tnow := first [reflexivity | (rewrite ?wnow_upd_node, ?wnow_logw; apply pnow; auto 14 with cdb)].
+#[local] Hint Extern 2 (CN (logw _ (LSel _ _ _))) => (apply logw_c; [reflexivity|]) : cdb.
+#[local] Hint Extern 2 (CN (logw _ (LDraw _ _ _))) => (apply logw_c; [reflexivity|]) : cdb.
+#[local] Hint Extern 2 (CN (logw _ (LGen _ _ _))) => (eapply logw_t; [reflexivity|reflexivity|tnow|]) : cdb.
+#[local] Hint Extern 2 (CN (logw _ (LPut _ _ _))) => (eapply logw_t; [reflexivity|reflexivity|tnow|]) : cdb.
+#[local] Hint Extern 2 (CN (logw _ (LGet _ _ _ _))) => (eapply logw_t; [reflexivity|reflexivity|tnow|]) : cdb.
+#[local] Hint Extern 2 (CN (logw _ (LDiscard _ _ _))) => (eapply logw_t; [reflexivity|reflexivity|tnow|]) : cdb.
+#[local] Hint Extern 2 (CN (logw _ (LPack _ _ _ _))) => (eapply logw_t; [reflexivity|reflexivity|tnow|]) : cdb.
+#[local] Hint Extern 1 (CN (logw (upd_node _ _ _) (LRecv _ _ _ _))) =>
+  (eapply recv_pair; [tnow|tnow|(eapply cre_le; [|eassumption]; auto 14 with cdb)|]) : cdb.
 #[local] Hint Extern 3 (CN (upd_node _ _ _)) => (apply upd_node_keep; [cn_side|]) : cdb.
-
-
-
+#[local] Hint Extern 3 (CN (upd_item _ _ (fun _ => _ <| i_contents ::= _ |>))) => (apply upd_item_c; [intros ? ?; assumption|]) : cdb.
+#[local] Hint Extern 3 (CN (upd_item _ _ (fun _ => _ <| i_contents := _ |>))) => (apply upd_item_c; [intros ? ?; assumption|]) : cdb.
 
 Lemma w_succeed_c w e s : CN w -> CN (w_succeed w e s).
 Proof.
-  unfold w_succeed. intros H. destruct (succeed (wk w) e) eqn:E; [exact H|apply crashw_c; auto].
+  unfold w_succeed. intros H. destruct (succeed (wk w) e) eqn:E; [|apply crashw_c; auto].
+  apply setk_c; auto. eapply now_succeed; eauto.
 Qed.
 #[local] Hint Resolve w_succeed_c : cdb.
 
@@ -123,22 +237,20 @@ Proof. unfold w_succeed_all. induction es as [|e es IH]; simpl; auto. intros w H
 #[local] Hint Resolve w_succeed_all_c : cdb.
 
 Lemma w_event_c w w1 e : w_event w = (w1, e) -> CN w -> CN w1.
-Proof. unfold w_event. simpl. intros [= <- _] H. exact H. Qed.
-
+Proof. unfold w_event. simpl. intros [= <- _] H. apply setk_c; auto. Qed.
 
 Lemma w_timeout_c w d w1 e : w_timeout w d = (w1, e) -> CN w -> CN w1.
 Proof.
   unfold w_timeout. destruct (d <? 0).
   - intros [= <- _] H. auto with cdb.
-  - destruct (timeout (wk w) d) as [k e0]. intros [= <- _] H. exact H.
+  - destruct (timeout (wk w) d) as [k e0] eqn:E. intros [= <- _] H. apply setk_c; auto.
+    apply (f_equal fst) in E. simpl in E. subst k. reflexivity.
 Qed.
-
-
-
 
 Lemma w_any_of_c w es w1 c : w_any_of w es = (w1, c) -> CN w -> CN w1.
 Proof.
-  unfold w_any_of. destruct (any_of (wk w) es) as [k e0]. intros [= <- _] H. exact H.
+  unfold w_any_of. destruct (any_of (wk w) es) as [k e0] eqn:E. intros [= <- _] H. apply setk_c; auto.
+  apply (f_equal fst) in E. simpl in E. subst k. apply now_any_of.
 Qed.
 
 Lemma spawn_c w p w1 pid d : spawn w p = (w1, pid, d) -> CN w -> CN w1.
@@ -146,13 +258,13 @@ Proof.
   unfold spawn. intros E H.
   destruct (w_event w) as [wa done] eqn:E1. destruct (w_event wa) as [wb ini] eqn:E2.
   inversion E; subst. clear E.
-  assert (CN wb) as Hb by (eapply w_event_c; [exact E2|]; eapply w_event_c; [exact E1|]; exact H). exact Hb.
+  assert (CN wb) as Hb by (eapply w_event_c; [exact E2|]; eapply w_event_c; [exact E1|]; exact H).
+  revert Hb. apply same_c; reflexivity.
 Qed.
 
 Lemma e_update_level_c w e : CN w -> CN (e_update_level w e).
 Proof. auto. Qed.
 #[local] Hint Resolve e_update_level_c : cdb.
-
 Lemma store_op_c w e o w1 r ts : store_op w e o = (w1, r, ts) -> CN w -> CN w1.
 Proof. unfold store_op. destruct (StoreB.step _ _) as [[s' r0] ts0]. intros [= <- _ _] H. auto. Qed.
 
@@ -200,7 +312,7 @@ Proof.
   unfold e_put. intros H. destruct (ek (get_edge w e)).
   - destruct (_ <? 0); [auto with cdb|].
     destruct (StoreB.step _ _) as [[s' r] ts]. destruct r; auto with cdb.
-    destruct (spawn _ _) as [[w2 pid] d] eqn:E. apply logw_c; [reflexivity|]. apply w_succeed_all_c.
+    destruct (spawn _ _) as [[w2 pid] d] eqn:E. eapply logw_t; [reflexivity|reflexivity|apply pnow; exact H|]. apply w_succeed_all_c.
     eapply spawn_c; [exact E|]. auto with cdb.
   - destruct (StoreB.step _ _) as [[s' r] ts]. destruct r; auto with cdb.
 Qed.
@@ -249,7 +361,10 @@ Lemma reserve_all_cc w pid es put w1 l1 : reserve_all w pid es put = (w1, l1) ->
 Proof. unfold reserve_all. apply reserve_all_c. Qed.
 
 Lemma set_creation_c w i n : CN w -> CN (set_creation w i n).
-Proof. intros H. unfold set_creation. auto 8 with cdb. Qed.
+Proof.
+  intros H. unfold set_creation. apply upd_item_c; [|exact H].
+  intros y _. unfold cre_ok. cbn. rewrite (pnow _ H). lia.
+Qed.
 Lemma update_state_rep_c w n : CN w -> CN (update_state_rep w n).
 Proof.
   unfold update_state_rep. intros H. destruct (nlast _); auto with cdb.
@@ -317,7 +432,7 @@ Ltac ksplit3 :=
           match goal with
           | |- context [match ?x with _ => _ end] => destruct x eqn:?; repeat (kstep || kstep2); cbn [fst snd]
           end).
-#[local] Hint Extern 6 (CN (set _ _ _)) => (unfold CN; cbn [wnodes wlog set]; progress simpl) : cdb.
+#[local] Hint Extern 4 (CN (set witems _ _)) => (apply add_item_c; [exact I|]) : cdb.
 Ltac kgo3 := ksplit3; cbn [fst snd]; auto 14 with cdb.
 
 Lemma source_block_c w p : CN w -> CN (fst (source_block w p)).
@@ -342,7 +457,8 @@ Proof.
   intros H. unfold machine_request. cbv zeta.
   assert (CN (update_state_rep w n)) as H1 by auto with cdb.
   destruct (res_request (wk (update_state_rep w n)) n (nres (get_node (update_state_rep w n) n))) as [[[k r] q]|] eqn:E; cbn [fst].
-  - apply setpc_c, upd_proc_c. apply upd_node_keep; [intros ?; repeat split; reflexivity|exact H1].
+  - apply setpc_c, upd_proc_c. apply upd_node_keep; [intros ?; reflexivity|]. apply setk_c; [|exact H1].
+    eapply now_res_request; eauto.
   - auto with cdb.
 Qed.
 #[local] Hint Resolve machine_request_c : cdb.
@@ -358,7 +474,7 @@ Lemma worker_release_c w p n : CN w -> CN (fst (worker_release w p n)).
 Proof.
   intros H. unfold worker_release. cbv zeta.
   destruct (res_release (wk w) n (nres (get_node w n)) (ptk (me w p))) as [[[k r] g]|] eqn:E; cbn [fst].
-  - apply setpc_c. apply upd_node_keep; [intros ?; repeat split; reflexivity|exact H].
+  - apply setpc_c. apply upd_node_keep; [intros ?; reflexivity|]. apply setk_c; [|exact H]. eapply now_res_release; eauto.
   - auto with cdb.
 Qed.
 #[local] Hint Resolve worker_release_c : cdb.
@@ -418,14 +534,14 @@ Lemma sc_request_c w p n pc : CN w -> CN (fst (sc_request w p n pc)).
 Proof.
   intros H. unfold sc_request.
   destruct (res_request (wk w) n (nres (get_node w n))) as [[[k r] q]|] eqn:E; cbn [fst].
-  - apply setpc_c, upd_proc_c. apply upd_node_keep; [intros ?; repeat split; reflexivity|exact H].
+  - apply setpc_c, upd_proc_c. apply upd_node_keep; [intros ?; reflexivity|]. apply setk_c; [|exact H]. eapply now_res_request; eauto.
   - auto with cdb.
 Qed.
 Lemma sc_release_c w p n : CN w -> CN (fst (sc_release w p n)).
 Proof.
   intros H. unfold sc_release.
   destruct (res_release (wk w) n (nres (get_node w n)) (ptk (me w p))) as [[[k r] g]|] eqn:E; cbn [fst].
-  - apply setpc_c. apply upd_node_keep; [intros ?; repeat split; reflexivity|exact H].
+  - apply setpc_c. apply upd_node_keep; [intros ?; reflexivity|]. apply setk_c; [|exact H]. eapply now_res_release; eauto.
   - auto with cdb.
 Qed.
 #[local] Hint Resolve sc_request_c sc_release_c : cdb.
@@ -534,19 +650,19 @@ Proof.
   destruct (block (w <| wactive := p |>) p) as [w1 y]. cbn [fst] in B.
   assert (CN w1) as H1 by (apply B; exact H).
   destruct (wcrash w1); auto. destruct y.
-  - destruct (e_proc _); [apply IH; exact H1|]. exact H1.
-  - apply upd_proc_c. exact H1.
+  - destruct (e_proc _); [apply IH; exact H1|]. apply setk_c; [reflexivity|exact H1].
+  - apply upd_proc_c. apply setk_c; [reflexivity|exact H1].
 Qed.
 
 Lemma run_cb_c w c : CN w -> CN (run_cb w c).
 Proof.
   intros H. unfold run_cb. destruct (wcrash w); auto. destruct c.
   - apply resume_c; auto.
-  - exact H.
+  - apply setk_c; [apply now_check|exact H].
   - destruct (res_trig_get _ _) as [[k0 r0]|] eqn:E; auto with cdb;
-      (apply upd_node_keep; [intros ?; repeat split; reflexivity|exact H]).
+      (apply upd_node_keep; [intros ?; reflexivity|]; apply setk_c; [|exact H]; eapply now_res_trig_get; eauto).
   - destruct (res_trig_put _ _) as [[k0 r0]|] eqn:E; auto with cdb;
-      (apply upd_node_keep; [intros ?; repeat split; reflexivity|exact H]).
+      (apply upd_node_keep; [intros ?; reflexivity|]; apply setk_c; [|exact H]; eapply now_res_trig_put; eauto).
   - exact H.
 Qed.
 
@@ -556,14 +672,20 @@ Proof. induction l as [|c l IH]; simpl; auto. intros w H. apply IH, run_cb_c, H.
 
 
 
-Theorem fstep_c w w' : CN w -> fstep w = Some w' -> CN w'.
+End AtTime.
+
+(* one kernel step: the clock moves forward to the popped event's time, and the predicate moves with it *)
+Theorem fstep_x w w' : KInv (wk w) -> XT (wnow w) w -> fstep w = Some w' -> XT (wnow w') w'.
 Proof.
-  unfold fstep. intros H. destruct (wcrash w); [discriminate|].
+  unfold fstep. intros KI H. destruct (wcrash w); [discriminate|].
   destruct (pop (wk w)) as [[[k e] cbs]|] eqn:E; [|discriminate]. intros [= <-].
-  apply run_cbs_c. exact H.
+  destruct (pop_kinv _ _ _ _ KI E) as (_ & M).
+  assert (XT (now k) (w <| wk := k |>)) as H0.
+  { split; [reflexivity|]. apply (YT_mono (wnow w)); [exact M|]. destruct H as (_ & Y). exact Y. }
+  pose proof (run_cbs_c (now k) cbs _ H0) as R. rewrite (pnow _ _ R). exact R.
 Qed.
 
-Lemma mk_step_c w c : CN w -> CN (mk_step w c).
+Lemma mk_step_c w c : XT 0 w -> XT 0 (mk_step w c).
 Proof.
   intros H. unfold mk_step. destruct c as [b i]. destruct b.
   - cbv zeta. match goal with |- context [spawn ?a ?b] => destruct (spawn a b) as [[w' pid] d] eqn:E end.
@@ -571,32 +693,47 @@ Proof.
   - destruct (ek (get_edge w i)); auto;
       destruct (w_event w) as [w1 act] eqn:E1; cbv zeta;
       match goal with |- context [spawn ?a ?b] => destruct (spawn a b) as [[w' pid] d] eqn:E end;
-      (eapply spawn_c; [exact E|]); assert (CN w1) as H1 by (eapply w_event_c; eauto); auto with cdb.
+      (eapply spawn_c; [exact E|]); assert (XT 0 w1) as H1 by (eapply w_event_c; eauto); apply upd_edge_c; exact H1.
 Qed.
 
 Lemma mk_world_c nodes edges order :
-  (forall nd, In nd nodes -> ngen nd = 0%nat /\ ndisc nd = 0%nat /\ nrecv nd = 0%nat) -> CN (mk_world nodes edges order).
+  (forall nd, In nd nodes -> ncycle nd = 0) -> XT 0 (mk_world nodes edges order).
 Proof.
   unfold mk_world. intros H0.
-  assert (forall l w, CN w -> CN (fold_left mk_step l w)) as G.
+  assert (forall l w, XT 0 w -> XT 0 (fold_left mk_step l w)) as G.
   { induction l as [|c l IH]; simpl; auto. intros w H. apply IH, mk_step_c, H. }
-  apply G. intros n L. simpl in *. unfold COK, cnt. simpl. apply H0. unfold get_node. simpl. apply nth_In. exact L.
+  apply G. split; [reflexivity|]. unfold YT. simpl. repeat split; try constructor.
+  intros n L. apply H0. unfold get_node. simpl. apply nth_In. exact L.
 Qed.
 
-(* C18 (counters), for every factory configuration whose nodes start with zero counters, and every number
-   of kernel steps: a node's counters of generated, discarded and received items are the numbers of
-   generation, discard and reception events of that node in the trace *)
-Theorem counters_are_event_counts nodes edges order n :
-  (forall nd, In nd nodes -> ngen nd = 0%nat /\ ndisc nd = 0%nat /\ nrecv nd = 0%nat) ->
+(* for every factory configuration whose sinks start with a zero cycle total, and every number of kernel steps *)
+Theorem stamps_everywhere nodes edges order n :
+  (forall nd, In nd nodes -> ncycle nd = 0) ->
   let w := FactoryInv.iter_fstep n (mk_world nodes edges order) in
-  forall i, (i < length (wnodes w))%nat ->
-    ngen (get_node w i) = cnt (is_gen i) (wlog w) /\
-    ndisc (get_node w i) = cnt (is_disc i) (wlog w) /\
-    nrecv (get_node w i) = cnt (is_recv i) (wlog w).
+  XT (wnow w) w.
 Proof.
   intros H0.
-  assert (forall m w, CN w -> CN (FactoryInv.iter_fstep m w)) as G.
-  { induction m as [|m IH]; simpl; intros w H; auto. destruct (fstep w) as [w'|] eqn:E; auto.
-    apply IH. eapply fstep_c; eauto. }
-  intros w i L. exact (G n _ (mk_world_c nodes edges order H0) i L).
+  assert (forall m w, KInv (wk w) -> XT (wnow w) w -> XT (wnow (FactoryInv.iter_fstep m w)) (FactoryInv.iter_fstep m w)) as G.
+  { induction m as [|m IH]; simpl; intros w K H; auto. destruct (fstep w) as [w'|] eqn:E; auto.
+    apply IH; [exact (proj1 (FactoryInv.fstep_k _ _ K E))|eapply fstep_x; eauto]. }
+  intros w. apply G; [apply FactoryInv.mk_world_k|].
+  pose proof (mk_world_c nodes edges order H0) as M. rewrite (pnow _ _ M). exact M.
 Qed.
+
+Theorem cycle_time_is_sum nodes edges order n :
+  (forall nd, In nd nodes -> ncycle nd = 0) ->
+  let w := FactoryInv.iter_fstep n (mk_world nodes edges order) in
+  forall i, (i < length (wnodes w))%nat -> ncycle (get_node w i) = cyc i (wlog w).
+Proof. intros H0 w. destruct (stamps_everywhere nodes edges order n H0) as (_ & _ & _ & _ & _ & E). exact E. Qed.
+
+Theorem reception_not_before_creation nodes edges order n :
+  (forall nd, In nd nodes -> ncycle nd = 0) ->
+  let w := FactoryInv.iter_fstep n (mk_world nodes edges order) in
+  Forall recv_ok (wlog w) /\ Forall (cre_ok (wnow w)) (witems w).
+Proof. intros H0 w. destruct (stamps_everywhere nodes edges order n H0) as (_ & A & _ & _ & D & _). auto. Qed.
+
+Theorem trace_times_nondecreasing nodes edges order n :
+  (forall nd, In nd nodes -> ncycle nd = 0) ->
+  let w := FactoryInv.iter_fstep n (mk_world nodes edges order) in
+  StronglySorted Z.le (times (wlog w)) /\ Forall (fun t => t <= wnow w) (times (wlog w)).
+Proof. intros H0 w. destruct (stamps_everywhere nodes edges order n H0) as (_ & _ & B & C & _). auto. Qed.
